@@ -236,11 +236,11 @@ pub open spec fn held_for_sale(ledgers: Map<Seq<char>, matcher::AcquisitionLedge
 }
 
 
-// ---------- input validity (what the DSL grammar and the JSON validator guarantee) ----------
+// ---------- input validity: what the DSL grammar guarantees (decimal = digits[.digits]: never negative, zero allowed) ----------
 pub open spec fn tx_valid(tx: GbpTransaction) -> bool {
     match tx.operation {
-        Operation::Buy { amount, price, fees } => amount.v() > 0real && price.v() >= 0real && fees.v() >= 0real,
-        Operation::Sell { amount, price, fees } => amount.v() > 0real && price.v() >= 0real && fees.v() >= 0real,
+        Operation::Buy { amount, price, fees } => amount.v() >= 0real && price.v() >= 0real && fees.v() >= 0real,
+        Operation::Sell { amount, price, fees } => amount.v() >= 0real && price.v() >= 0real && fees.v() >= 0real,
         _ => true,
     }
 }
